@@ -352,7 +352,7 @@ func checkC16(c C16Case, r *Rec) *Violation {
 	// the way the option subset reaches the compiler rotates with the case: written into the map, a
 	// directive over a config that says the opposite (Reordering explicitly off in the config, switched
 	// on in the source, and vice versa), options set on a CopyConfig / ExtendConf copy of such a config
-	how := []int{HowMapAll, HowDirectiveOpp, HowCopySet, HowExtendSet, HowMapSparse, HowOptionFn, HowMapSparse}[hash64(src)%7]
+	how := []int{HowMapAll, HowDirectiveOpp, HowCopySet, HowExtendSet, HowMapSparse, HowOptionFn, HowMapSparse, HowExtendKeep, HowCopyKeep}[hash64(src)%9]
 	r.Class(fmt.Sprintf("options-expressed-in-way-%d", how))
 	// ... and so does event mode (none, ReportEvent, Debug): reporting events changes no program (C12)
 	events := int(hash64(src)/7) % 3
